@@ -1,0 +1,102 @@
+//go:build verif
+// +build verif
+
+package keystore
+
+import "massnet.org/mass-wallet/masswallet/db"
+
+// Thin exported wrappers around the record (un)marshalers and the put* / fetch* pairs of db.go and around
+// export / getKeystoreFromJson, for the verification harness (/verif, engine ksc: byte-level keystore
+// codecs). No logic of their own.
+
+func VerifUint32ToBytes(n uint32) []byte { return uint32ToBytes(n) }
+
+func VerifSerializeAccountRow(acctType uint8, rawData []byte) []byte {
+	return serializeAccountRow(&dbAccountRow{acctType: accountType(acctType), rawData: rawData})
+}
+
+func VerifDeserializeAccountRow(accountID, serialized []byte) (uint8, []byte, error) {
+	row, err := deserializeAccountRow(accountID, serialized)
+	if err != nil {
+		return 0, nil, err
+	}
+	return uint8(row.acctType), row.rawData, nil
+}
+
+func VerifSerializeHDAccountKey(encryptedPubKey, encryptedPrivKey []byte) []byte {
+	return serializeHDAccountKey(encryptedPubKey, encryptedPrivKey)
+}
+
+func VerifDeserializeHDAccountKey(accountID, rawData []byte) ([]byte, []byte, error) {
+	row, err := deserializeHDAccountKey(accountID, &dbAccountRow{acctType: accountMASS, rawData: rawData})
+	if err != nil {
+		return nil, nil, err
+	}
+	return row.pubKeyEncrypted, row.privKeyEncrypted, nil
+}
+
+func VerifPutMasterKeyParams(b db.Bucket, pubParams, privParams []byte) error {
+	return putMasterKeyParams(b, pubParams, privParams)
+}
+func VerifFetchMasterKeyParams(b db.Bucket) ([]byte, []byte, error) { return fetchMasterKeyParams(b) }
+func VerifPutVersion(b db.Bucket, version uint8) error              { return putVersion(b, version) }
+func VerifFetchVersion(b db.Bucket) (uint8, error)                  { return fetchVersion(b) }
+func VerifPutEntropy(b db.Bucket, entropyEnc []byte) error          { return putEntropy(b, entropyEnc) }
+func VerifFetchEntropy(b db.Bucket) ([]byte, error)                 { return fetchEntropy(b) }
+func VerifPutCryptoKeys(b db.Bucket, pub, priv, entropy []byte) error {
+	return putCryptoKeys(b, pub, priv, entropy)
+}
+func VerifFetchCryptoKeys(b db.Bucket) ([]byte, []byte, []byte, error) { return fetchCryptoKeys(b) }
+func VerifPutAccountUsage(b db.Bucket, account uint32) error           { return putAccountUsage(b, account) }
+func VerifFetchAccountUsage(b db.Bucket) (uint32, error)               { return fetchAccountUsage(b) }
+func VerifPutCoinType(b db.Bucket, coin uint32) error                  { return putCoinType(b, coin) }
+func VerifFetchCoinType(b db.Bucket) (uint32, error)                   { return fetchCoinType(b) }
+func VerifPutAccountInfo(b db.Bucket, account uint32, pub, priv []byte) error {
+	return putAccountInfo(b, nil, account, pub, priv)
+}
+func VerifFetchAccountInfo(b db.Bucket, account uint32) ([]byte, []byte, error) {
+	v, err := fetchAccountInfo(b, account)
+	if err != nil {
+		return nil, nil, err
+	}
+	row := v.(*dbHDAccountKey)
+	return row.pubKeyEncrypted, row.privKeyEncrypted, nil
+}
+func VerifPutAccountID(b db.Bucket, id []byte) error    { return putAccountID(b, id) }
+func VerifFetchAccountID(b db.Bucket) ([][]byte, error) { return fetchAccountID(b) }
+func VerifDeleteAccountID(b db.Bucket, id []byte) error { return deleteAccountID(b, id) }
+func VerifPutRemark(b db.Bucket, remark []byte) error   { return putRemark(b, remark) }
+func VerifDeleteRemark(b db.Bucket) error               { return deleteRemark(b) }
+func VerifFetchRemark(b db.Bucket) ([]byte, error)      { return fetchRemark(b) }
+func VerifPutBranchPubKeys(b db.Bucket, internal, external []byte) error {
+	return putBranchPubKeys(b, internal, external)
+}
+func VerifFetchBranchPubKeys(b db.Bucket) ([]byte, []byte, error) { return fetchBranchPubKeys(b) }
+func VerifInitBranchChildNum(b db.Bucket) error                   { return initBranchChildNum(b) }
+func VerifUpdateChildNum(b db.Bucket, internal bool, next uint32) error {
+	return updateChildNum(b, internal, next)
+}
+func VerifFetchChildNum(b db.Bucket) (uint32, uint32, error)      { return fetchChildNum(b) }
+func VerifGetChildNum(b db.Bucket, internal bool) (uint32, error) { return getChildNum(b, internal) }
+func VerifPutEncryptedPubKey(b db.Bucket, branch, index uint32, pubKey []byte) error {
+	return putEncryptedPubKey(b, branch, index, pubKey)
+}
+
+// VerifFetchEncryptedPubKey returns (branch, index, encrypted key) of every entry, in bucket order.
+func VerifFetchEncryptedPubKey(b db.Bucket) ([]uint32, []uint32, [][]byte, error) {
+	pks, err := fetchEncryptedPubKey(b)
+	if err != nil {
+		return nil, nil, nil, err
+	}
+	var br, ix []uint32
+	var ks [][]byte
+	for _, p := range pks {
+		br, ix, ks = append(br, p.branch), append(ix, p.index), append(ks, p.pubkeyEnc)
+	}
+	return br, ix, ks, nil
+}
+
+func VerifExport(b db.Bucket, purpose, coin uint32) (*Keystore, error) {
+	return export(b, KeyScope{Purpose: purpose, Coin: coin})
+}
+func VerifKeystoreFromJSON(keysJson []byte) (*Keystore, error) { return getKeystoreFromJson(keysJson) }
